@@ -32,7 +32,9 @@ func (s *Series) Iterator() chunkenc.Iterator {
 	it := NewListIter(s.S)
 	it.FailAt, it.FailErr, it.Panic = s.FailAt, s.FailErr, s.Panic
 	it.OnLand = s.OnLand
+	sym.Lock()
 	s.Iters = append(s.Iters, it)
+	sym.Unlock()
 	return it
 }
 
@@ -87,16 +89,20 @@ func (q *Queryable) fault(site string) bool {
 }
 
 func (q *Queryable) Querier(ctx context.Context, mint, maxt int64) (storage.Querier, error) {
+	sym.Lock()
 	q.LastCtx = ctx
+	sym.Unlock()
 	if q.fault("Querier") {
 		return nil, q.FaultErr
 	}
+	sym.Lock()
 	q.Opened++
 	qr := &querier{q: q, mint: mint, maxt: maxt}
 	if q.Open == nil {
 		q.Open = map[*querier]bool{}
 	}
 	q.Open[qr] = true
+	sym.Unlock()
 	return qr, nil
 }
 
@@ -113,9 +119,11 @@ func (qr *querier) LabelNames(matchers ...*labels.Matcher) ([]string, storage.Wa
 	return nil, nil, nil
 }
 func (qr *querier) Close() error {
+	sym.Lock()
 	qr.closed++
 	qr.q.Closed++
 	delete(qr.q.Open, qr)
+	sym.Unlock()
 	return nil
 }
 
@@ -127,7 +135,9 @@ func (qr *querier) Select(sortSeries bool, hints *storage.SelectHints, matchers 
 	if hints != nil {
 		c.Hints = *hints
 	}
+	sym.Lock()
 	qr.q.Selects = append(qr.q.Selects, c)
+	sym.Unlock()
 	ss := &seriesSet{q: qr.q, pos: -1}
 	if qr.q.fault("Select") {
 		ss.err = qr.q.FaultErr
